@@ -1155,3 +1155,26 @@ def abstract_free(roots, dep_vars, prefix="K"):
         else:
             new[t] = rebuild(t.op, args, t.sort)
     return [new[r] for r in roots], mapping
+
+
+def strip_stopgrad(roots):
+    """the same values without the stop_gradient markers (they only matter for differentiation)"""
+    single = isinstance(roots, Term)
+    if single:
+        roots = [roots]
+    new = {}
+    for t in postorder(roots):
+        op = t.op
+        if op in ("const", "bconst", "var"):
+            new[t] = t
+            continue
+        args = [new[a] if isinstance(a, Term) else a for a in t.args]
+        if op == "stopgrad":
+            new[t] = args[0]
+            continue
+        if all(x is y for x, y in zip(args, t.args)):
+            new[t] = t
+            continue
+        new[t] = rebuild(op, args, t.sort)
+    out = [new[r] for r in roots]
+    return out[0] if single else out
